@@ -35,6 +35,7 @@ type Contract struct {
 	Flags    map[string]bool // inline pure trusted noinline lemma
 	Props    []string
 	Fuel     int
+	Use      map[string]map[string]bool
 	Rank     int
 	FuelFor  map[string]int
 	File     string
@@ -125,6 +126,21 @@ func parseContractFile(path string) ([]*Contract, error) {
 		case "inline", "pure", "trusted", "noinline", "lemma", "spec", "functional", "structural":
 			for _, f := range fields {
 				cur.Flags[f] = true
+			}
+			last = nil
+			continue
+		case "use":
+			// use <callee>: label label ...   (which labelled ensures of the callee this function relies on)
+			rest := strings.TrimSpace(strings.TrimPrefix(body, "use"))
+			if i := strings.Index(rest, ":"); i > 0 {
+				if cur.Use == nil {
+					cur.Use = map[string]map[string]bool{}
+				}
+				m := map[string]bool{}
+				for _, l := range strings.Fields(rest[i+1:]) {
+					m[l] = true
+				}
+				cur.Use[strings.TrimSpace(rest[:i])] = m
 			}
 			last = nil
 			continue
